@@ -66,7 +66,7 @@ def check_round8(ctx, cuqi, rng):
                     ts = np.cumsum([0.0] + [rng.choice([0.25, 0.5, 0.125]) for _ in range(rng.choice([1, 2, 3]))])
                     lines.append(f"time {n} backward_euler {dk} {qv(ts)} {base.fam_tokens(F)} {qv(p)}")
                     cases.append(dict(cls=cls, kind=kind, n=n, F=F, p=p, ts=ts, solver=solver))
-    outs = ctx.lean.drive(lines)
+    outs = yield lines
     for cs, out, line in zip(cases, outs, lines):
         if out == "bad-op":
             raise RuntimeError("C18 round-8 driver line not understood: " + line[:200])
@@ -145,7 +145,7 @@ def check_round8(ctx, cuqi, rng):
                 ops = f"a:{qv(ps[0])}|s|a:{qv(ps[1])}|s|s|a:{qv(ps[0])}|s|a:{qv(ps[1])}|s"
                 lines.append(f"steady {n} plain {base.fam_tokens(F)} {npar} {ops}")
                 cases.append(dict(order=order, n=n, spell=spell, K=K, B=B, b0=b0, ps=ps, F=F, npar=npar))
-    outs = ctx.lean.drive(lines)
+    outs = yield lines
     for cs, out, line in zip(cases, outs, lines):
         if out == "bad-op":
             raise RuntimeError("C18 round-8 driver line not understood: " + line[:200])
